@@ -8,9 +8,10 @@ import random
 import streamlib as sl
 from vlib import build_lib
 
-THEOREMS = ["C12_loadDict_inv", "C12_loadDict_hist", "C12_loadDict_roundtrip", "C12_attach_inv", "C12_attach_roundtrip", "C12_dictctx_unchanged"]
+THEOREMS = ["C12_loadDict_inv", "C12_loadDict_hist", "C12_loadDict_roundtrip", "C12_attach_inv", "C12_attach_roundtrip", "C12_dictctx_unchanged", "C12_hc_mid_loadDict", "C12_hc_mid_loadDict_roundtrip", "C12_hc_mid_attach_roundtrip"]
 ORACLES = ["stream"]
-CORRESPONDENCE = ["Model.FastStream loadDict/loadDictSlow/attach_dictionary/compress_fast_continue (prefix, external dictionary, dictCtx with and without "
+CORRESPONDENCE = ["Model.HcMidStream (HC levels 1-2: initStreamHC, resetStreamHC(_fast), setCompressionLevel, loadDictHC/LZ4MID_fillHTable, attach_HC_dictionary bookkeeping, setExternalDict, overlap trimming, 2 GB reload, compress_HC_continue(_destSize), saveDictHC, extStateHC(_fastReset)) == lib/lz4hc.c: return value, consumed, bytes, both LZ4MID hash tables, end/prefixStart/dictStart (arena addresses), dictLimit/lowLimit/nextToUpdate, level, dirty, dictCtx null/non-null after EVERY mirrored call; calls at levels >= 3 or reaching the dictionary-context search are outside the model (state re-imported afterwards)",
+                  "Model.FastStream loadDict/loadDictSlow/attach_dictionary/compress_fast_continue (prefix, external dictionary, dictCtx with and without "
                   "table copy) == lib/lz4.c: return value, output bytes and whole public stream state after EVERY operation"]
 RULE = ("dictionary sizes 0..13, 16, 40, 100, 1000, 4000, 4096, 20000, 64KB-1, 64KB, 64KB+1, 64KB+8, 70000, 130000 x method {loadDict, loadDictSlow, "
         "attach (loadDict / loadDictSlow prepared), struct copy of a prepared stream; HC: loadDictHC, attach_HC with every level pairing mid/hc/opt} x "
